@@ -5,7 +5,7 @@
 
   Not theorems (explored by the harness oracle only): equipartition and positivity of the hydrodynamic spectrum near
   a surface, the Stimson–Jeffery series (bounds, limit; finding F9 lives there), monotonicity of the salt-solution
-  viscosity/density, the `brentq` molarity→molality conversion, monotonicity of the Brenner factor.
+  viscosity/density, the `brentq` molarity→molality conversion.
 -/
 import Verif.Lemmas.C20
 
@@ -123,6 +123,21 @@ theorem hydro_bulk_pos (f fc D g R rhoS rhoB : ℝ) (hf : 0 < f) (hD : 0 < D) (h
 example : 0 < hydroPsd (1000:ℝ) 500 2 1e-8 5e-7 997 1060 none :=
   hydro_bulk_pos _ _ _ _ _ _ _ (by norm_num) (by norm_num) (by norm_num) (by norm_num) (by norm_num)
 
+/-- What `PassiveCalibrationModel.__call__` returns without the hydrodynamic correction (Lorentzian × diode filter,
+    or the bare Lorentzian for a fast sensor) is positive for `D, f_c > 0` and `0 ≤ α < 1`. -/
+theorem passive_lorentzian_pos (m : Passive ℝ) (hh : m.cfg.hydro = false) (f fc D fd a : ℝ) (hD : 0 < D)
+    (hfc : 0 < fc) (h0 : 0 ≤ a) (h1 : a < 1) : 0 < m.call f fc D fd a := by
+  have hl := lorentzian_pos f fc D hD hfc
+  have hg := (g_diode_bounds f fd a h0 h1).1
+  have ha : 0 ≤ a ^ 2 := by positivity
+  simp only [Passive.call, Passive.physical, hh, Bool.false_eq_true, if_false]
+  split
+  · norm_num; exact hl
+  · exact mul_pos hl (by linarith)
+
+example (m : Passive ℝ) (hh : m.cfg.hydro = false) : 0 < m.call 1000 500 2 14000 0.3 :=
+  passive_lorentzian_pos m hh _ _ _ _ _ (by norm_num) (by norm_num) (by norm_num) (by norm_num)
+
 /-! ## Wall corrections (Faxén lateral, Brenner axial) -/
 
 /-- The Faxén correction exceeds one for every distance `h ≥ R` (contact included). -/
@@ -176,6 +191,22 @@ theorem brenner_ge_faxen (h R : ℝ) (hR : 0 < R) (hh : R < h) : faxen h R ≤ b
   exact one_div_le_one_div_of_le (brennerP_pos _ hx0.le hx1) (brennerP_le_faxenP _ hx0.le hx1.le)
 
 example : faxen (1.5:ℝ) 1 ≤ brenner (1.5:ℝ) 1 := brenner_ge_faxen _ _ (by norm_num) (by norm_num)
+
+/-- The axial correction decreases strictly with the distance from the surface (the derivative of its
+    denominator is negative on `[0, 1]`). -/
+theorem brenner_antitone_in_distance (R h₁ h₂ : ℝ) (hR : 0 < R) (h1 : R < h₁) (h12 : h₁ < h₂) :
+    brenner h₂ R < brenner h₁ R := by
+  rw [brenner_real, brenner_real]
+  have hh1 : 0 < h₁ := by linarith
+  have hh2 : 0 < h₂ := by linarith
+  have hx : 0 ≤ R / h₂ := (div_pos hR hh2).le
+  have hxy : R / h₂ < R / h₁ := div_lt_div_of_pos_left hR hh1 h12
+  have hy : R / h₁ < 1 := (div_lt_one hh1).mpr h1
+  have hlt := brennerP_strictAntiOn ⟨hx, (hxy.trans hy).le⟩ ⟨hx.trans hxy.le, hy.le⟩ hxy
+  exact one_div_lt_one_div_of_lt (brennerP_pos _ (hx.trans hxy.le) hy) hlt
+
+example : brenner (3:ℝ) 1 < brenner (2:ℝ) 1 :=
+  brenner_antitone_in_distance 1 2 3 (by norm_num) (by norm_num) (by norm_num)
 
 /-- The axial correction also tends to one far from the surface. -/
 theorem brenner_tends_to_one (R : ℝ) : Tendsto (fun h => brenner h R) atTop (𝓝 1) := by
